@@ -91,8 +91,12 @@ func selfTest(dump bool, specs []string) []string {
 	pair("OnlyWhen", "GoodOnlyWhen", "BadOnlyWhen", func(c *rules.Ctx, fn string) { c.OnlyWhen(fn, "fx.Store.Del", "eq(n,0)", "delete only at zero") })
 	pair("ReachedWhen", "GoodOnlyWhen", "BadReachedWhen", func(c *rules.Ctx, fn string) { c.ReachedWhen(fn, "fx.Store.Del", "eq(n,0)", "delete always at zero") })
 	pair("CallArg", "GoodArg", "BadArg", func(c *rules.Ctx, fn string) { c.CallArg(fn, "fx.pay", 1, "amt", "pays the amount") })
-	pair("Returns", "GoodArg", "BadArg", func(c *rules.Ctx, fn string) { c.Returns(fn, 0, "fx.pay(owner,amt)", "returns the payment's error", "") })
-	pair("HasCall", "GoodPaired", "BadPaired", func(c *rules.Ctx, fn string) { c.HasCall(fn, "fx.book", []string{"amt"}, true, "booked on success", "") })
+	pair("Returns", "GoodArg", "BadArg", func(c *rules.Ctx, fn string) {
+		c.Returns(fn, 0, "fx.pay(owner,amt)", "returns the payment's error", "")
+	})
+	pair("HasCall", "GoodPaired", "BadPaired", func(c *rules.Ctx, fn string) {
+		c.HasCall(fn, "fx.book", []string{"amt"}, true, "booked on success", "")
+	})
 	pair("PairedArg", "GoodPaired", "BadPaired", func(c *rules.Ctx, fn string) { c.PairedArg(fn, "fx.pay", 1, "fx.book", "what is paid is booked") })
 	pair("Order", "GoodOrder", "BadOrder", func(c *rules.Ctx, fn string) { c.Order(fn, "fx.check", "fx.pay", "check before pay") })
 	pair("NeverAfter", "GoodOrder", "BadOrder", func(c *rules.Ctx, fn string) { c.NeverAfter(fn, "fx.pay", "fx.check", "no check after pay") })
@@ -108,6 +112,11 @@ func selfTest(dump bool, specs []string) []string {
 	})
 	pair("NoWrap", "GoodNoWrap", "BadNoWrap", func(c *rules.Ctx, fn string) { c.NoWrap(fn, "fx.split", 0, "8-bit split cannot wrap") })
 	pair("MapKeys", "GoodMapKeys", "BadMapKeys", func(c *rules.Ctx, fn string) { c.MapKeys(fn, "elem(ks)", 2, "keyed by ks") })
+
+	pair("StoresOnlyFields", "Pool.GoodReweigh", "Pool.BadReweigh", func(c *rules.Ctx, fn string) { c.StoresOnlyFields(fn, "Asset", []string{"Weight"}, "only weights") })
+	pair("ReturnOnlyUnder", "GoodEmpty", "BadEmpty", func(c *rules.Ctx, fn string) {
+		c.ReturnOnlyUnder(fn, 0, "eq(gross,0)", "true", "empty only without gross")
+	})
 
 	// scanners
 	rel := P.Rel
